@@ -151,7 +151,7 @@ def check(c):
             require(is_plain_float(kl_once) and abs(kl - kl_once) <= 1e-8 * (1 + abs(want)), "KL:dict-vs-rotate-once",
                     f"KL with per-basis pre-rotated targets ({kl}) differs from KL with one target to be rotated ({kl_once})")
         else:
-            kl = TS.KL(state, lib_t, space, bases=bases)
+            kl = TS.KL(state, lib_t, space, bases=(np.array(bases) if (bases is not None and c.get("space_default")) else bases))   # list or the documented numpy array
         require(is_plain_float(kl), "KL:type", f"KL returned {type(kl).__name__}, not a plain real number")
         require(abs(kl - want) <= 1e-8 * (1 + abs(want)), "KL:value" + (":bases=None" if bases is None else ""),
                 f"KL = {kl} but the mean Kullback-Leibler divergence of the Born distributions over bases {blist} is {want}")
